@@ -1,9 +1,12 @@
+"""Run the registered checks against the behaviour-preserving refactoring patches under seeded/refactorings
+(each applied to a scratch copy of Lib/fontTools).  Expected outcome for every patch and every check: silent.
+usage: run_refactorings.py [--all] [name-filter ...]   env SNAP_VERIF / SNAP_REPO select snapshot copies."""
 import json, os, shutil, subprocess, sys, tempfile, glob
 from concurrent.futures import ProcessPoolExecutor
 VERIF=os.environ.get("SNAP_VERIF","/verif")
 claimed=[c["property_id"] for c in json.load(open(os.path.join(VERIF,"MANIFEST.json")))["checks"]]
 def run(pd):
-    name=pd.split("/")[-3].replace("-out","")+"-"+pd.split("/")[-2]
+    name=pd.split("/")[-2]
     scratch=tempfile.mkdtemp(prefix="verif-rf-")
     try:
         shutil.copytree(os.environ.get("SNAP_REPO","/repo")+"/Lib/fontTools", os.path.join(scratch,"Lib","fontTools"), ignore=shutil.ignore_patterns("__pycache__"))
@@ -22,6 +25,6 @@ def run(pd):
         return name, "; ".join(out) or "silent"
     finally: shutil.rmtree(scratch,ignore_errors=True)
 only=[a for a in sys.argv[1:] if not a.startswith("-")]
-pds=sorted(p for p in glob.glob("/tmp/wt5/*-out/R*/patch.diff") if os.path.getsize(p)>0 and (not only or any(o in p for o in only)))
+pds=sorted(p for p in glob.glob(os.path.join(os.path.dirname(os.path.dirname(os.path.abspath(__file__))), "seeded", "refactorings", "*", "patch.diff")) if os.path.getsize(p)>0 and (not only or any(o in p for o in only)))
 with ProcessPoolExecutor(15) as ex:
     for n,r in ex.map(run,pds): print(f"{n:8s} {r}", flush=True)
